@@ -447,8 +447,73 @@ def eval_dispatch(col):
     col.sample({"kind": "dispatch", "info": "mixed", "url": URLS[2]})
 
 
+# ---- conformance of the HTTP seam with real sockets (DESIGN section 6) ----
+CONF_ANSWERS = ["404", "500", "ignore-range", "short-truthful",
+                "long-truthful", "short-declared", "connection-error",
+                "broken-mid-body"]
+
+
+def _norm(out):
+    """results without messages (URLs differ between the two transports)"""
+    return [(repr(op), res[:2]) for op, res in out]
+
+
+def conformance_dataset(col, ds, tier):
+    root = sandbox.fresh_dir("c14c")
+    sock = None
+    try:
+        chunks = build(ds, root)
+        srv = httpsim.serve(root)
+        ref_out, ref_log, _ = run_history(URLS[0], chunks, srv, {})
+        runs = [{}]
+        stride = 3 if tier == "quick" else 1
+        n = 0
+        for k in range(len(ref_log)):
+            for a in menu_for(ref_log[k]):
+                if a in CONF_ANSWERS:
+                    n += 1
+                    if n % stride == 0:
+                        runs.append({k: a})
+        sim_results = []
+        for devs in runs:
+            out, log, _ = run_history(URLS[0], chunks, srv, devs)
+            sim_results.append((_norm(out), log))
+        # the same runs through the unmodified requests stack and sockets
+        httpsim.uninstall()
+        sock = httpsim.SocketServer(srv)
+        url = "http://127.0.0.1:%d/ds" % sock.port
+        for devs, (sim_out, sim_log) in zip(runs, sim_results):
+            out, log, _ = run_history(url, chunks, srv, devs)
+            if _norm(out) != sim_out or log != sim_log:
+                raise RuntimeError(
+                    "HTTP seam / socket mismatch for %r deviations %r:\n"
+                    "seam   %r\nsocket %r" % (ds, devs, sim_out,
+                                              _norm(out)))
+            col.ev(1, 1, "conformance-ok")
+            col.extra("conformance_replays")
+    finally:
+        if sock is not None:
+            sock.stop()
+        httpsim.install()
+        httpsim.SimAdapter.server = None
+        sandbox.drop_captured_exit_handlers()
+        sandbox.rm(root)
+
+
+CONF_DATASETS = [
+    {"kind": "plain", "flat": True, "gzip": True},
+    {"kind": "plain", "flat": False, "gzip": True},
+    {"kind": "sharded", "triple": [1, 1, 0], "enc": "raw",
+     "size": [2, 2, 2], "legacy": False},
+    {"kind": "sharded", "triple": [0, 1, 1], "enc": "gzip",
+     "size": [3, 2, 1], "legacy": True},
+]
+
+
 def units(tier):
     u = [{"kind": "dispatch"}]
+    for ds in CONF_DATASETS:
+        u.append({"kind": "conformance", "ds": ds, "tier": tier})
     for ds in plain_datasets() + sharded_datasets(tier):
         u.append({"kind": "dataset", "ds": ds, "tier": tier})
     return u
@@ -465,6 +530,9 @@ def run_unit(u):
     col = Collector()
     if u["kind"] == "dispatch":
         eval_dispatch(col)
+    elif u["kind"] == "conformance":
+        conformance_dataset(col, u["ds"], u["tier"])
+        col.sample({"conformance": u["ds"]})
     else:
         explore_dataset(col, u["ds"], u["tier"])
         col.sample({"dataset": u["ds"], "url": URLS[0],
